@@ -101,6 +101,14 @@ class BadStr:
     __repr__ = object.__repr__
 
 
+class BadRepr:
+    def __repr__(self):
+        raise RuntimeError("BadRepr.__repr__")
+
+    def __str__(self):
+        return "bad-repr"
+
+
 class BadLen:
     def __len__(self):
         raise RuntimeError("BadLen.__len__")
